@@ -441,12 +441,12 @@ theorem scan_get_image (fa P sa L : Nat) (hax : fa ≠ sa) (hP : 2 ≤ P) (hL : 
     have hL1 : (L != 1) = true := by rw [bne_iff_ne]; omega
     generalize (fr :: rest).length = F
     by_cases hflip : sa < fa <;> by_cases hF : F = 1
-    · subst hF; simp [List.filter_cons, hflip, hP1, hL1]
+    · subst hF; simp [hflip, hP1, hL1]
     · have hF1 : (F != 1) = true := by rw [bne_iff_ne]; exact hF
-      simp [List.filter_cons, hflip, hP1, hL1, hF1, hF]
-    · subst hF; simp [List.filter_cons, hflip, hP1, hL1]
+      simp [hflip, hP1, hL1, hF1, hF]
+    · subst hF; simp [hflip, hP1, hL1]
     · have hF1 : (F != 1) = true := by rw [bne_iff_ne]; exact hF
-      simp [List.filter_cons, hflip, hP1, hL1, hF1, hF]
+      simp [hflip, hP1, hL1, hF1, hF]
 
 example : scanGetImage [(1, 2), (0, 2)] [1, 2, 2, 0, 2, 2, 2] [1, 2, 3, 9, 4, 5, 6]
     = .ok ⟨[2, 2, 2], [3, 4, 3, 5, 6, 0, 0, 0]⟩ := by decide
